@@ -53,6 +53,9 @@ def gen(r, tier, i):
             overrides.append({'path': ['st', 'p%d' % pid], 'emit': r.random() < 0.5})
     if r.random() < 0.15:
         overrides.append({'path': ['shared'], 'emit': r.random() < 0.5})
+    if r.random() < 0.25:
+        # the whole glob store (its children come and go during the run)
+        overrides.append({'path': [r.choice(['cells', 'cells2'])], 'emit': r.random() < 0.6})
     if r.random() < 0.3:
         # a branch holding an ordinary variable and one that is only declared through a '**' port
         overrides.append({'path': r.choice([['deep'], ['deep'], ['deep', 'blob'], ['deep', 'n']]), 'emit': r.random() < 0.7})
@@ -265,6 +268,9 @@ def expected_row(spec, snap, fl):
             out.setdefault(path[0], {}).setdefault(path[1], {})
             if len(path) == 3:
                 on = spec['emit_cell'] if path[2] == 'x' else (not spec['emit_cell'] if path[2] == 'y' else False)
+                for o in spec['overrides']:
+                    if o['path'] == [path[0]]:
+                        on = o['emit']      # a branch-level flag on the glob store covers every child, whenever it was added
                 if on:
                     put(path, v)
             continue
